@@ -1,4 +1,5 @@
 import GenjaxVerif.Lemmas.GFIUpdate
+import GenjaxVerif.Lemmas.GFIKept
 import GenjaxVerif.Props.GFITest
 /-!
 # C05 — update installs the constraint and weighs by the score change
@@ -14,6 +15,17 @@ theorem C05_update_weight (ds : DistSem) (p : Prog) (i : In) (r : Res) (told : T
     (h : run ds .upd p i = .ok r) (ho : i.old = some told) (hs : Shape p told) (hsafe : Safe i.changed p) :
     r.w = r.tr.score - told.score :=
   upd_w ds p i r told h ho hs hsafe
+
+/-- The new trace holds the constraint's value at every (validly) constrained address … -/
+theorem C05_update_installs_constraint (ds : DistSem) (p : Prog) (i : In) (r : Res)
+    (h : run ds .upd p i = .ok r) : Agrees i.c r.tr :=
+  run_agrees ds .upd (Or.inr rfl) p i r h
+
+/-- … and the previous value at every other address (no fresh trace drawn). -/
+theorem C05_update_keeps_unconstrained (ds : DistSem) (p : Prog) (i : In) (r : Res) (told : Trace)
+    (h : run ds .upd p i = .ok r) (ho : i.old = some told) (hs : Shape p told) (hsafe : Safe i.changed p) :
+    Kept i.c told r.tr :=
+  upd_kept ds p i r told h ho hs hsafe
 
 /-- Every operation returns a trace of the program's shape, so histories compose. -/
 theorem C05_update_shape (ds : DistSem) (m : Mode) (p : Prog) (i : In) (r : Res)
